@@ -69,7 +69,7 @@ def ob_metadata_step(v: int, keepv: int, pvol: bool, with_store: bool) -> bool:
     q, ptext, kind = FAMILY[part("q")]
     with_store = bool(with_store) and q in STORE_KEYS
     pvars = {"active_namespaces": ["n2", "root"]} if ptext == "p/ns-n2" else {}
-    sp = mkstate(ptext, SP_DATA.get(q, Box(v)), volatile=pvol, vars=pvars, attributes={"Persist": keepv, "lower": 1},
+    sp = mkstate(ptext, SP_DATA.get(q, Box(v)), volatile=pvol, vars=pvars, attributes={"Persist": keepv, "lower": 1, "Keep": "inherited"},
                  commands=[["addn", "5"]] if ptext == "p/addn-5" else ([["ns", "n2"]] if ptext == "p/ns-n2" else []))
     subs = {ptext: sp, "/lnk": mkstate("/lnk", 2), "one/addn-2": mkstate("one/addn-2", Box(3)), "bad/q": mkstate("bad/q", None, error=True)}
     cache = MemoryCache()
@@ -123,9 +123,10 @@ def ob_metadata_step(v: int, keepv: int, pvol: bool, with_store: bool) -> bool:
         ok = ok and m["parent_query"] == ptext
         ok = ok and m["attributes"].get("Persist") == keepv and "lower" not in m["attributes"]
         if name == "tagged":
+            # the executed command's OWN declaration wins over a value inherited from upstream
             ok = ok and m["attributes"].get("Keep") == "k2" and m["attributes"].get("drop") == "d2"
         else:
-            ok = ok and "Keep" not in m["attributes"] and "drop" not in m["attributes"]
+            ok = ok and m["attributes"].get("Keep") == "inherited" and "drop" not in m["attributes"]
         if "~X~" in q:
             ok = ok and any(a.get("query") == "/lnk" for a in m.get("argument_queries", []))
         if name == "sub":
